@@ -6,7 +6,7 @@
 #include <verif/verif.h>
 #include <verif/os_stubs.h>
 #include <verif/lfht_pre.h>
-struct cds_lfht_node;
+#include <urcu/rculfhash.h>
 struct cds_lfht_node *lf_load_next(struct cds_lfht_node **addr);
 struct cds_lfht_node **lf_canon_addr(struct cds_lfht_node **addr);
 #define LF_IS_NODEPTR(addr) __builtin_types_compatible_p(__typeof__(*(addr)), struct cds_lfht_node *)
@@ -46,6 +46,14 @@ unsigned long G_w;			/* arbitrary witness position */
 unsigned long G_R, G_K;			/* requested reverse hash / key */
 struct cds_lfht_node *G_x;		/* the node being added / replaced in (not in the pool) */
 
+/* one chain node may have been physically unlinked (garbage-collected) by the function under proof */
+unsigned long G_unl;
+unsigned long G_flags_except;	/* with G_noflags: the one position that may carry REMOVED / REMOVAL_OWNER */
+#ifdef LF_WITH_UNLINK
+#define LF_SUCC(k)	(((k) + 1 == G_unl) ? (k) + 2 : (k) + 1)
+#else
+#define LF_SUCC(k)	((k) + 1)
+#endif
 #define CUR(node)	((node) ? LF_IDX(node) : G_n)
 #define CANON(node)	((node) == 0 || (LF_IS_POOL(node) && __CPROVER_POINTER_OFFSET(node) % LF_NODE_SZ == 0 && LF_IDX(node) < G_n))
 #define CANONP(node)	((node) != 0 && LF_IS_POOL(node) && __CPROVER_POINTER_OFFSET(node) % LF_NODE_SZ == 0 && LF_IDX(node) < G_n)
